@@ -18,6 +18,7 @@ RULE = ('crc16: every byte string of length 0..3 (2^24+65793 messages = every (r
         'messages (each single byte position set, lengths 4..4096). A case is non-trivial when its length >= 1; states = '
         'distinct messages fed to the real function; transitions = register transitions they exercise; '
         'traces = messages whose reference checksum was compared with the implementation')
+RULE += ' Fifth session: length alphabet 2^k-1, 2^k, 2^k+1 (k <= 18, thorough 20), 3*2^k, multiples of 65536 +-1 against the table form of the bitwise reference (tied to it by the self-test); every result is held and re-compared after the following calls.'
 LEVEL_TEXT = ('Complete enumeration through the public functions: crc16 on every byte string of length 0..3 (every (register, byte) '
               'transition of the 16-bit machine, which by induction decides all lengths for any implementation whose state is the '
               'register); crc32c on every string of length 0..2 (0..3 thorough) in all byte-order modes plus structured long '
